@@ -265,6 +265,7 @@ func (s *Sim) Boot() {
 	for _, id := range s.IDs {
 		n := &Node{ID: id, Opts: w.Nodes[id]}
 		n.Disk = newDisk(n)
+		n.Disk.stats = s.Stats
 		n.Disk.Mode = n.Opts.SnapMode
 		n.SM = newSM()
 		s.Nodes[id] = n
